@@ -410,4 +410,182 @@ theorem flat_sections_exclusive (progs : List (List Ev)) (hflat : ∀ p ∈ prog
     u.inRd = false ∧ u.inWr = false :=
   (inv_run _ (inv_init progs hflat) sched).exclusive hi hj hij ht
 
+
+/-! ### Readers see the list before or after a modification, never a mix -/
+
+/-- every thread's snapshot is the fold of a PREFIX of the write log: the token list as it stood
+after some number of the modifications, applied whole and in write order -/
+def SnapsArePrefixes {σ} (upd : Nat → σ → σ) (s0 : σ) (g : Ghost σ) : Prop :=
+  ∀ j, ∃ k, k ≤ g.log.length ∧ g.snap j = (g.log.take k).foldl (fun s i => upd i s) s0
+
+theorem snapsArePrefixes_init {σ} (upd : Nat → σ → σ) (s0 : σ) : SnapsArePrefixes upd s0 (ginit s0) :=
+  fun _ => ⟨0, Nat.le_refl _, rfl⟩
+
+theorem snapsArePrefixes_step {σ} (upd : Nat → σ → σ) (s0 : σ) (c : Config) (g : Ghost σ) (i : Nat)
+    (h : GInv upd s0 c g) (hp : SnapsArePrefixes upd s0 g) : SnapsArePrefixes upd s0 (gstep upd g c i) := by
+  have hval' := (ginv_step upd s0 c g i h).val
+  cases hf : fired c i with
+  | none => simpa [gstep, hf] using hp
+  | some e =>
+    cases e with
+    | read =>
+      simp only [gstep, hf]
+      intro j
+      by_cases hji : j = i
+      · subst hji
+        refine ⟨g.log.length, Nat.le_refl _, ?_⟩
+        simp only [if_true, List.take_length]
+        exact h.val
+      · simpa [hji] using hp j
+    | write =>
+      simp only [gstep, hf] at hval' ⊢
+      intro j
+      by_cases hji : j = i
+      · subst hji
+        refine ⟨(g.log ++ [j]).length, Nat.le_refl _, ?_⟩
+        simp only [if_true, List.take_length]
+        exact hval'
+      · obtain ⟨k, hk, hs⟩ := hp j
+        refine ⟨k, by simp; omega, ?_⟩
+        simp only [hji, if_false]
+        rw [List.take_append_of_le_length hk]
+        exact hs
+    | callout => simpa [gstep, hf] using hp
+    | rlock | runlock | lock | unlock =>
+      simp only [gstep, hf]
+      exact hp
+
+theorem snapsArePrefixes_run {σ} (upd : Nat → σ → σ) (s0 : σ) (c : Config) (g : Ghost σ) (h : GInv upd s0 c g)
+    (hp : SnapsArePrefixes upd s0 g) (sched : List Nat) : SnapsArePrefixes upd s0 (drun upd (c, g) sched).2 := by
+  induction sched generalizing c g with
+  | nil => exact hp
+  | cons i is ih => exact ih _ _ (ginv_step upd s0 c g i h) (snapsArePrefixes_step upd s0 c g i h hp)
+
+/-- **Readers see the old or the new list, never a mix**: under every schedule, whatever any thread
+has read (its snapshot) is the initial list with the first `k` modifications of the write log applied,
+each whole and in the order written; and a snapshot taken in the section the thread is still in
+(`fresh`) is the CURRENT list -/
+theorem flat_reads_see_prefix {σ} (upd : Nat → σ → σ) (s0 : σ) (progs : List (List Ev))
+    (hflat : ∀ p ∈ progs, Flat p = true) (hrbw : ∀ p ∈ progs, RBW p = true) (sched : List Nat) (i : Nat) :
+    let g := (drun upd (init progs, ginit s0) sched).2
+    (∃ k, k ≤ g.log.length ∧ g.snap i = (g.log.take k).foldl (fun s j => upd j s) s0) ∧
+    (∀ t, (run (init progs) sched).threads[i]? = some t → g.fresh i = true → g.snap i = g.shared) := by
+  intro g
+  have hinv := ginv_run upd s0 _ _ (ginv_init upd s0 progs hflat hrbw) sched
+  refine ⟨snapsArePrefixes_run upd s0 _ _ (ginv_init upd s0 progs hflat hrbw) (snapsArePrefixes_init upd s0) sched i, ?_⟩
+  intro t ht hfr
+  rw [← drun_fst upd (init progs) (ginit s0) sched] at ht
+  exact (hinv.cur i t ht hfr).2
+
+/-! ### Every run terminates: effective steps are bounded by the weight -/
+
+/-- the number of steps of a schedule that actually move a thread (a step of a thread that does not
+exist, is finished or is blocked leaves the configuration as it is) -/
+def effSteps : Config → List Nat → Nat
+  | _, [] => 0
+  | c, i :: is => (if enabled c i then 1 else 0) + effSteps (step c i) is
+
+theorem step_of_not_enabled (c : Config) (i : Nat) (h : enabled c i = false) : step c i = c := by
+  unfold enabled at h
+  unfold step
+  split
+  · rfl
+  · rename_i t hi
+    simp only [hi] at h
+    cases hn : next c t with
+    | none => rfl
+    | some x => simp [hn] at h
+
+/-- whatever the schedule: effective steps + remaining weight never exceed the initial weight -/
+theorem effSteps_add_weight_le (c : Config) (sched : List Nat) :
+    effSteps c sched + (run c sched).weight ≤ c.weight := by
+  induction sched generalizing c with
+  | nil => simp [effSteps, run]
+  | cons i is ih =>
+    simp only [effSteps, run, List.foldl_cons]
+    have := ih (step c i)
+    simp only [run] at this
+    cases he : enabled c i with
+    | true =>
+      have := step_weight_lt c i he
+      simp only [if_true]
+      omega
+    | false =>
+      rw [step_of_not_enabled c i he] at this ⊢
+      simp only [Bool.false_eq_true, if_false]
+      omega
+
+/-- the weight of the initial configuration: two units per event plus one per thread -/
+theorem weight_init (progs : List (List Ev)) :
+    (init progs).weight = (progs.map fun p => 2 * p.length + 1).sum := by
+  simp only [Config.weight, init, List.map_map]
+  congr 1
+
+/-- **Every maximal run finishes**, under ANY scheduler: for flat programs and every schedule,
+(1) at most `weight` steps of the schedule move a thread; (2) as long as some thread is unfinished
+some thread can move; (3) so once no thread can move, every thread has finished.  A scheduler that
+keeps picking some enabled thread while there is one therefore completes every call after at most
+`weight` picks. -/
+theorem flat_every_maximal_run_finishes (progs : List (List Ev)) (hflat : ∀ p ∈ progs, Flat p = true)
+    (sched : List Nat) :
+    effSteps (init progs) sched ≤ (progs.map fun p => 2 * p.length + 1).sum ∧
+    (finished (run (init progs) sched) = false →
+      ∃ i, i < (run (init progs) sched).threads.length ∧ enabled (run (init progs) sched) i = true) ∧
+    ((∀ i, enabled (run (init progs) sched) i = false) → finished (run (init progs) sched) = true) := by
+  have hinv := inv_run _ (inv_init progs hflat) sched
+  have hw := effSteps_add_weight_le (init progs) sched
+  rw [weight_init] at hw
+  refine ⟨by omega, fun hf => progress _ hinv hf, ?_⟩
+  intro hno
+  cases hf : finished (run (init progs) sched) with
+  | true => rfl
+  | false =>
+    obtain ⟨i, _, he⟩ := progress _ hinv hf
+    rw [hno i] at he; cases he
+
+
+/-! ### Per-call updates
+
+`upd i` above is one function per thread.  A thread that performs several modifying calls applies a
+different function each time; this is the instance of the generic statement in which the shared
+value carries, next to the token list, how many writes each thread has done (a ghost counter that
+only `write` events touch, so by `flat_no_lost_update` itself it is never lost either). -/
+
+/-- the `k`-th write of thread `i` stores `updc i k` of its snapshot -/
+def perCall {σ} (updc : Nat → Nat → σ → σ) (i : Nat) (p : σ × (Nat → Nat)) : σ × (Nat → Nat) :=
+  (updc i (p.2 i) p.1, fun j => if j = i then p.2 j + 1 else p.2 j)
+
+/-- the writes of a log applied in order, each thread's writes numbered 0, 1, 2, … -/
+def applyLog {σ} (updc : Nat → Nat → σ → σ) (s0 : σ) (log : List Nat) : σ × (Nat → Nat) :=
+  log.foldl (fun p i => perCall updc i p) (s0, fun _ => 0)
+
+theorem applyLog_snoc {σ} (updc : Nat → Nat → σ → σ) (s0 : σ) (log : List Nat) (i : Nat) :
+    applyLog updc s0 (log ++ [i]) = perCall updc i (applyLog updc s0 log) := by
+  simp [applyLog, List.foldl_append]
+
+theorem foldl_perCall_count {σ} (updc : Nat → Nat → σ → σ) (j : Nat) :
+    ∀ (log : List Nat) (p : σ × (Nat → Nat)),
+      (log.foldl (fun p i => perCall updc i p) p).2 j = p.2 j + log.count j
+  | [], p => by simp
+  | i :: l, p => by
+    rw [List.foldl_cons, foldl_perCall_count updc j l]
+    simp only [perCall, List.count_cons]
+    by_cases h : j = i
+    · subst h; simp; omega
+    · have : (i == j) = false := by simpa using fun e => h e.symm
+      simp [h, this]
+
+/-- the counter is the number of writes of that thread so far -/
+theorem applyLog_count {σ} (updc : Nat → Nat → σ → σ) (s0 : σ) (log : List Nat) (j : Nat) :
+    (applyLog updc s0 log).2 j = log.count j := by
+  simp [applyLog, foldl_perCall_count]
+
+/-- **No lost update, per call**: under every schedule the token list is the log applied in write
+order, where the `k`-th write of thread `i` contributes `updc i k` -/
+theorem flat_no_lost_update_per_call {σ} (updc : Nat → Nat → σ → σ) (s0 : σ) (progs : List (List Ev))
+    (hflat : ∀ p ∈ progs, Flat p = true) (hrbw : ∀ p ∈ progs, RBW p = true) (sched : List Nat) :
+    (drun (perCall updc) (init progs, ginit (s0, fun _ => 0)) sched).2.shared
+      = applyLog updc s0 (drun (perCall updc) (init progs, ginit (s0, fun _ => 0)) sched).2.log :=
+  flat_no_lost_update (perCall updc) (s0, fun _ => 0) progs hflat hrbw sched
+
 end Macaroon.Conc
